@@ -287,7 +287,8 @@ class P2PConnection:
                 self._response_waiter.set_exception(ManagementConnectionRefused())
             return
         if isinstance(telegram.tpci, TAck | TNak):
-            if not self._ack_waiter:
+            if not self._ack_waiter or self._ack_waiter.done():
+                # no telegram awaiting an ACK, or already acknowledged / timed out
                 logger.warning("Received unexpected ACK/NAK: %s", telegram)
                 return
             self._ack_waiter.set_result(telegram.tpci)
